@@ -30,6 +30,8 @@ def handle (ts : Toks) : String :=
       | some fault =>
         let ops := if prog == "A" then atomicWrite chunks false fault else if prog == "As" then atomicWrite chunks true fault
                    else outputToFile chunks fault
+        -- crash points are counted in operations other than explicit flushes (see `c17_atomic_with_any_flushes`)
+        let ops := ops.filter (fun o => o != .flush)
         let ops := match crashT.toNat? with | some j => crashAfter j ops | none => ops
         let fs := applyAll { dest := old } ops
         let model := ops.map showOp ++ [showDest fs.dest]
@@ -41,7 +43,9 @@ def handle (ts : Toks) : String :=
           (if okOld || okNew then [] else ["destination-truncated-or-partial"]) ++
           (if clean && !okNew then ["success-but-destination-not-the-serialization"] else []) ++
           (if real.contains "NAME:0" then ["file-name-not-the-formatted-pattern"] else [])
-        let agree := model == real.filter (fun t => !t.startsWith "NAME:")
+        -- explicit flushes are not compared: `c17_atomic_with_any_flushes` covers every placement of them
+        let noFlush (l : List String) := l.filter (fun t => t != "flush")
+        let agree := noFlush model == noFlush (real.filter (fun t => !t.startsWith "NAME:"))
         reply agree fails.isEmpty
           (if fails.isEmpty then (if agree then "ok" else "model=" ++ " ".intercalate model) else ",".intercalate fails ++ " model=" ++ " ".intercalate model)
     | _, _ => reply false false "parse-error"
